@@ -10,6 +10,14 @@ Streams
            (or a global/nonlocal declaration for) the variable Python read, as determined by the
            run-time token and CPython's `symtable`; in straight-line one-scope code the landing is
            exactly the binding whose value was observed.  Independent of the Lean model.
+  compctx  TreeContextMixin.create_context on every name of a generated comprehension
+           (`[x for v in y]`, `[x for v in (y)]`, `.. if c`; all coincidences of the names) vs
+           Model.CompCtx.nodeContext with the operator read from the source: enclosing context or
+           the comprehension's own
+Generated comprehensions iterate over NAMES (the outermost iterable is a use in the ENCLOSING scope,
+also when it is spelled like the loop target: `[a for a in a]`); the ones with an `if` clause are
+outside the Scopes fragment (jedi looks the iterable / the condition up from the wrong context,
+known findings) and are judged by the oracle only.
 """
 import symtable
 
@@ -29,7 +37,11 @@ MANIFEST = dict(
          'chain theorem under the explicit `Covered` hypothesis, with kernel-checked counter-witnesses for each '
          'excluded shape (replayed on the real code as known findings). Tie: exact-equality correspondence of '
          'Script.goto with the model on generated programs, and of the Python-side spec with CPython by executing '
-         'the programs with binding tokens.',
+         'the programs with binding tokens. Model/CompCtx (comprehension branch of create_context, operator '
+         'and return values read from the source): a node of a comprehension gets the enclosing context iff it '
+         'starts at or after the last child; the outermost iterable - its first leaf included - is looked up in '
+         'the enclosing scope (partial: no if/for clause; kernel-checked counter-witness with an if clause); '
+         'stream compctx ties the model to the real create_context on generated comprehensions over names.',
     note='Modelled not verified: the fragment is straight-line bodies (no if/for/try flow analysis), no '
          'decorators/defaults/annotations, single module; parso parsing and the pretty-printer of the '
          'harness are trusted. Programs outside the fragment are covered by the direct oracle only.',
@@ -112,6 +124,16 @@ def shape_of(flat, use, landing):
         return 'lambda-default-in-class-body'
     ls = occs[landing][2] if landing is not None and landing >= 0 else None
     K = G.KINDS
+    part = dict((i, k) for i, k in flat.get('compparts', [])).get(use)
+    if part == 'iter+cond' and ls is not None and kind(ls) == K['comp'] and par(ls) == s \
+            and occs[landing][1] == G.ROLES['bind']:
+        # create_context compares with children[-1] of the comp_for: with an `if` clause that is the
+        # clause, not the iterable, so the iterable is looked up from the comprehension's own context
+        return 'comprehension-with-condition-iterable-sees-loop-target'
+    if part == 'cond' and (ls is None or ls != s) and any(
+            o[0] == x and o[2] == s and o[1] == G.ROLES['bind'] for o in occs):
+        # ... and the condition from the enclosing context: it does not see the loop target
+        return 'comprehension-condition-misses-loop-target'
     # ancestors of the use scope
     anc = []
     t = s
@@ -194,7 +216,8 @@ def analyse(prog):
         lands[o['id']] = sorted(ids)
     seen, err, esrc = G.run_executable(prog, occs)
     seen = {u: sorted(t) for u, t in seen.items()}
-    out = {'prog': prog, 'src': src, 'occs': occs, 'flat': flat, 'lands': lands, 'seen': seen,
+    compctx = comp_contexts(script, occs) if any(o.get('part') for o in occs) else []
+    out = {'prog': prog, 'compctx': compctx, 'src': src, 'occs': occs, 'flat': flat, 'lands': lands, 'seen': seen,
            'raised': raised, 'judged': [], 'fails': [], 'note': None}
     # ---- direct oracle (independent of the model)
     try:
@@ -254,6 +277,46 @@ def analyse(prog):
     return out
 
 
+def comp_contexts(script, occs):
+    """the real create_context on every name of every comprehension line that iterates over a name:
+    [{iterStart, iterEnd, lastStart, nodes: [[line, col]..], impl: ['parent'|'comp'|...]}]"""
+    res = []
+    try:
+        mc = script._get_module_context()
+        module = script._module_node
+    except Exception as e:       # another property's business (C01)
+        return res
+    for ln in sorted({o['line'] for o in occs if o.get('part')}):
+        leaves = []
+        leaf = module.get_first_leaf()
+        while leaf is not None:
+            if leaf.start_pos[0] == ln:
+                leaves.append(leaf)
+            leaf = leaf.get_next_leaf()
+        fors = [l for l in leaves if l.type == 'keyword' and l.value == 'for'
+                and l.parent.type in ('comp_for', 'sync_comp_for')]
+        if len(fors) != 1:
+            continue
+        cf = fors[0].parent
+        nodes, impl = [], []
+        for l in leaves:
+            if l.type != 'name':
+                continue
+            c = mc.create_context(l)
+            if type(c).__name__ == 'CompForContext' and c.tree_node is cf:
+                impl.append('comp')
+            elif type(c).__name__ != 'CompForContext':
+                impl.append('parent')
+            else:
+                impl.append('other:' + type(c).__name__)
+            nodes.append(list(l.start_pos))
+        it = cf.children[3]
+        res.append({'iterStart': list(it.start_pos), 'iterEnd': list(it.end_pos),
+                    'lastStart': list(cf.children[-1].start_pos), 'nodes': nodes, 'impl': impl,
+                    'line': ln})
+    return res
+
+
 def fix_keys(out):
     """JSON turns int keys into strings"""
     out['lands'] = {int(k): v for k, v in out['lands'].items()}
@@ -277,8 +340,15 @@ def absorb(ctx, out, reqs, cases, tag):
                           'runtime_binding_ids': out['seen'][u], 'jedi_landing_ids': out['lands'][u]})
     for what, case, exp, obs in out['fails']:
         ctx.fail('oracle', what, case, expected=exp, observed=obs, how=how)
-    reqs.append({'op': 'analyse', 'scopes': [s[:2] for s in flat['scopes']], 'occs': flat['occs']})
     out['tag'] = tag
+    for cc in out.get('compctx', []):
+        ctx.creqs.append(dict(op='compctx', iterStart=cc['iterStart'], iterEnd=cc['iterEnd'],
+                              lastStart=cc['lastStart'], nodes=cc['nodes']))
+        ctx.ccases.append((src, cc))
+    if tag == 'comp-cond':
+        # outside the Scopes fragment (see the module docstring): oracle + compctx only
+        return
+    reqs.append({'op': 'analyse', 'scopes': [s[:2] for s in flat['scopes']], 'occs': flat['occs']})
     cases.append(out)
 
 
@@ -319,6 +389,24 @@ def compare(ctx, cases, answers):
                                           'model_var_use': a['var'][u], 'model_var_binding': a['var'][t]}, 1500))
 
 
+def compare_compctx(ctx, ccases, answers):
+    for (src, cc), a in zip(ccases, answers):
+        if isinstance(a, dict) and 'error' in a:
+            raise common.InfraError('driver: %r' % a)
+        for node, impl, model in zip(cc['nodes'], cc['impl'], a['ctx']):
+            first = node == cc['iterStart']
+            ctx.count('compctx', (src, tuple(node)), nontrivial=True,
+                      bucket=('first-leaf-of-iterable' if first else 'before-iterable' if node < cc['iterStart']
+                              else 'inside-iterable' if node < cc['iterEnd'] else 'after-iterable') +
+                             ('/with-if' if cc['lastStart'] != cc['iterStart'] else ''),
+                      sample={'source': src, 'node': node, 'context': impl})
+            if impl != model:
+                ctx.disagree_comp = True
+                ctx.tie_broken('correspondence:compctx',
+                               short({'source': src, 'node': node, 'create_context': impl, 'model': model,
+                                      'comp_for': {k: cc[k] for k in ('iterStart', 'iterEnd', 'lastStart')}}, 1200))
+
+
 def programs(ctx):
     rng = ctx.subrng('gen')
     out = []
@@ -337,14 +425,24 @@ def programs(ctx):
         ctx.notes.append('exhaustive stream: all %d module bodies with <= 5 items over names {a, b}' % len(small))
         ctx.obligations['exhaustive'] = True
         n_random = 8000
+    comp = list(G.enumerate_comp_iter())
+    out += [(p, 'comp-iter') for p in comp]
+    cond = list(G.enumerate_comp_iter(conds=True))
+    n_cond = ctx.size(100, len(cond))
+    out += [(p, 'comp-cond') for p in rng.sample(cond, min(n_cond, len(cond)))]
+    ctx.notes.append('comp-iter stream: all %d comprehensions over names {a, b} iterating over a NAME (bare / '
+                     'parenthesised; every coincidence of loop target, element and iterable) in module / function / '
+                     'class / nested function / method bodies; %d of the %d with an `if` clause (oracle + compctx only)'
+                     % (len(comp), min(n_cond, len(cond)), len(cond)))
     for _ in range(n_random):
-        out.append((G.gen_program(rng, allow=('lambda', 'comp', 'assign', 'dflt', 'ldflt')), 'random'))
-    out += [(p, 'witness') for p in WITNESSES]
+        out.append((G.gen_program(rng, allow=('lambda', 'comp', 'assign', 'dflt', 'ldflt', 'compit')), 'random'))
+    out += [(p, 'comp-cond' if G.has_cond(p) else 'witness') for p in WITNESSES]
     return out
 
 
 def run(ctx):
     reqs, cases = [], []
+    ctx.creqs, ctx.ccases = [], []
     progs = programs(ctx)
     if len(progs) > 3000:
         outs = [fix_keys(o) for o in common.parallel_map('props.c03', 'analyse', [p for p, _ in progs])]
@@ -353,8 +451,9 @@ def run(ctx):
     for out, (_, tag) in zip(outs, progs):
         absorb(ctx, out, reqs, cases, tag)
     if ctx.model_ok:
-        answers = common.run_driver_parallel('C03', reqs)
-        compare(ctx, cases, answers)
+        answers = common.run_driver_parallel('C03', reqs + ctx.creqs)
+        compare(ctx, cases, answers[:len(reqs)])
+        compare_compctx(ctx, ctx.ccases, answers[len(reqs):])
     else:
         ctx.notes.append('model did not build: correspondence skipped, oracle only')
     if (ctx.broken or not ctx.model_ok) and not any(ctx.violations):
@@ -404,6 +503,7 @@ def search(ctx, disagreeing):
             ok.append(p)
         except SyntaxError:
             pass
+    ok += list(G.enumerate_comp_iter())
     ok += list(G.enumerate_small(4))
     outs = [fix_keys(o) for o in common.parallel_map('props.c03', 'analyse', ok)]
     how = 'jedi.Script(source).goto(line, column) vs executing the program'
@@ -445,6 +545,10 @@ WITNESSES = [
     # default value of a lambda parameter in a class body reads the class attribute
     [B('a'), D('class', 'K', [B('a'), {'k': 'lamdef', 'name': 'g', 'params': ['b'], 'x': 'b', 'dflt': 'a'},
                               {'k': 'call', 'x': 'g', 'n': 1}])],
+    # comprehension with an `if` clause: the iterable sees the loop target, the condition misses it
+    [B('a'), {'k': 'comp', 'var': 'a', 'x': 'a', 'it': 'a', 'cond': 'a'}],
+    [B('a'), B('b'), D('function', 'f', [B('b'), {'k': 'comp', 'var': 'b', 'x': 'a', 'it': 'a', 'cond': 'b'}]),
+     {'k': 'call', 'x': 'f', 'n': 0}],
     # global declaration, enclosing function binds the name
     [B('a'), D('function', 'f', [B('a'), D('function', 'g', [{'k': 'global', 'x': 'a'}, U('a')]),
                                  {'k': 'call', 'x': 'g', 'n': 0}]), {'k': 'call', 'x': 'f', 'n': 0}],
